@@ -291,7 +291,7 @@ def to_trace(sc, truth, events):
         elif k == "answer":
             evs.append({"ev": "answer", "q": e["q"], "result": e["result"], "to": e["to"]})
         elif k == "return":
-            evs.append({"ev": "return", "rows": e["rows"], "children": e["children"]})
+            evs.append({"ev": "return", "rows": e["rows"], "children": e["children"], **({"cfg": e["cfg"], "cols": e["cols"]} if "cfg" in e else {})})
         elif k == "raise":
             evs.append({"ev": "raise", "exc": e["exc"]})
         elif k == "new":
